@@ -1568,6 +1568,23 @@ def grabConnModelRow (sc : List String) : List String :=
     | some s1 => ["lock", "defer:unlock"] ++ (if (s1.conns 1).st == .grabbed then ["pop", "return:conn"] else ["?"])
     | none => ["lock", "defer:unlock", "return:nil"]
 
+/-- `grabConnTo` (the path taken when a `Transport.Resolver` is set): scans the idle stack from the top for a conn to
+the resolved address.  The model has no addresses — `Event.grab cid` may take ANY idle conn, which covers every choice
+the scan can make; a conn is handed out exactly when `grab` is enabled for it and the address matches, and no idle conn
+(or none to that address) means the caller connects anew. -/
+def grabConnToModelRow (sc : List String) : List String :=
+  let pre : List TransportConn.Event :=
+    if flag sc "idleLeft" then [.new 1 1 1 [⟨2, 5⟩], .recv 1 5, .done 1 .ok, .release 1 true] else []
+  match TransportConn.run pre with
+  | none => ["model: no such state"]
+  | some s0 =>
+    match TransportConn.step s0 (.grab 1) with
+    | some s1 =>
+      if flag sc "addressMatches" then
+        ["lock", "defer:unlock"] ++ (if (s1.conns 1).st == .grabbed then ["pop", "return:conn"] else ["?"])
+      else ["lock", "defer:unlock", "loop", "return:nil"]
+    | none => ["lock", "defer:unlock", "return:nil"]
+
 def removeConnModelRow (sc : List String) : List String :=
   -- `isThisConn`: the conn is (still) in the idle stack when its timer fires
   let pre : List TransportConn.Event :=
@@ -1681,6 +1698,7 @@ theorem flow_tables_are_the_models :
     Gen.MuxFacts.readBatchWithFlow.all (fun (sc, eff) => readBatchWithModelRow sc == eff) = true ∧
     Gen.MuxFacts.releaseConnFlow.all (fun (sc, eff) => releaseConnModelRow sc == eff) = true ∧
     Gen.MuxFacts.grabConnFlow.all (fun (sc, eff) => grabConnModelRow sc == eff) = true ∧
+    Gen.MuxFacts.grabConnToFlow.all (fun (sc, eff) => grabConnToModelRow sc == eff) = true ∧
     Gen.MuxFacts.removeConnFlow.all (fun (sc, eff) => removeConnModelRow sc == eff) = true ∧
     Gen.MuxFacts.closeIdleConnsFlow.all (fun (sc, eff) => closeIdleConnsModelRow sc == eff) = true ∧
     Gen.MuxFacts.doRequestFlow.all (fun (sc, eff) => doRequestModelRow sc == eff) = true ∧
